@@ -51,6 +51,7 @@ type termPlan struct {
 	Delay               int    `json:"strace_recvfrom_delay_us"`
 	RestartUnderTraffic bool   `json:"restart_under_traffic"`
 	Shrink              bool   `json:"templates_shrink_in_later_cycles"`
+	SecondSignalMs      int    `json:"second_signal_after_ms"`
 }
 
 type termWitness struct {
@@ -478,6 +479,15 @@ func runTermPlan(run *mon.Run, p termPlan, dir string, st *termStats) {
 			sigAt = time.Now()
 			syscall.Kill(col.vflowPid(), sg)
 			atomic.AddInt64(&st.signals, 1)
+			if p.SecondSignalMs > 0 {
+				// an impatient operator or init script: the signal again while the graceful shutdown is under way
+				pid := col.vflowPid()
+				go func() {
+					time.Sleep(time.Duration(p.SecondSignalMs) * time.Millisecond)
+					syscall.Kill(pid, sg)
+					atomic.AddInt64(&st.signals, 1)
+				}()
+			}
 		}
 		switch {
 		case p.Shape == "idle":
@@ -698,6 +708,10 @@ func termMain(args mon.Args) {
 	for i := 0; i < run.Pick(2, 10); i++ {
 		plans = append(plans, termPlan{Index: 700 + i, Seed: run.Seed, Shape: "burst", When: "after-ack", Signal: []string{"TERM", "INT"}[i%2], Cycles: 3, Exporters: 25, Workers: 4, Shrink: true})
 	}
+	for i := 0; i < run.Pick(3, 12); i++ {
+		plans = append(plans, termPlan{Index: 800 + i, Seed: run.Seed, Shape: "burst", When: "after-ack", Signal: []string{"TERM", "INT", "TERM"}[i%3], Cycles: 3, Exporters: 15, Workers: 4,
+			SecondSignalMs: []int{300, 50, 700}[i%3]})
+	}
 	for i := 0; i < run.Pick(3, 0); i++ {
 		plans = append(plans, termPlan{Index: 2000 + i, Seed: run.Seed, Shape: "flood", When: "after-ack", Signal: "TERM", Cycles: 2, Exporters: 60, Workers: 2, Delay: 3000000})
 	}
@@ -737,7 +751,7 @@ func termMain(args mon.Args) {
 			os.MkdirAll(pdir, 0o755)
 			runTermPlan(run, p, pdir, st)
 			run.Eval(1)
-			run.Distinct(fmt.Sprintf("%s|%s|%s|c%d|e%d|w%d|el%v|race%v|delay%d|rut%v|shrink%v", p.Shape, p.When, p.Signal, p.Cycles, p.Exporters, p.Workers, p.Elements, p.Race, p.Delay, p.RestartUnderTraffic, p.Shrink))
+			run.Distinct(fmt.Sprintf("%s|%s|%s|c%d|e%d|w%d|el%v|race%v|delay%d|rut%v|shrink%v|second%d", p.Shape, p.When, p.Signal, p.Cycles, p.Exporters, p.Workers, p.Elements, p.Race, p.Delay, p.RestartUnderTraffic, p.Shrink, p.SecondSignalMs))
 			if pi == 1 {
 				run.Sample(p)
 			}
@@ -761,7 +775,7 @@ func termMain(args mon.Args) {
 	if st.decodedAfterRestart == 0 && args.Replay == "" {
 		run.HarnessError("no acknowledged template was ever probed after a restart: the monitor observed nothing")
 	}
-	run.SetRule("the real vflow binary with private ports/pid/cache files and a TCP sink (rawSocket producer); exporters emulated from 127.x.y.z source addresses. Plans enumerate traffic shape {idle, steady, burst of template announcements from 1-500 exporters, flood with 1 worker} × signal time {after acknowledgement, mid-burst, during start-up} × {SIGTERM, SIGINT} × 2-4 stop/start cycles on the same files × elements file installed or not × restart under continuing traffic, plus plans in which every exporter re-announces a much smaller template in later cycles (the saved cache shrinks); thorough adds the race-built binary and strace recvfrom delay injection (3 s) that stalls the read loop across the shutdown window. Oracles: exit status 0, no panic/fatal on stderr, exit within 10 s, both cache files complete JSON and loadable with every template whose data had been seen at the sink before the signal, and after the restart data sent WITHOUT templates for every such (exporter,template) is published and equals the stand-alone decode. distinct = plan descriptor")
+	run.SetRule("the real vflow binary with private ports/pid/cache files and a TCP sink (rawSocket producer); exporters emulated from 127.x.y.z source addresses. Plans enumerate traffic shape {idle, steady, burst of template announcements from 1-500 exporters, flood with 1 worker} × signal time {after acknowledgement, mid-burst, during start-up} × {SIGTERM, SIGINT} × 2-4 stop/start cycles on the same files × elements file installed or not × restart under continuing traffic, plus plans in which every exporter re-announces a much smaller template in later cycles (the saved cache shrinks), and plans in which the signal is repeated 50-700 ms into the shutdown; thorough adds the race-built binary and strace recvfrom delay injection (3 s) that stalls the read loop across the shutdown window. Oracles: exit status 0, no panic/fatal on stderr, exit within 10 s, both cache files complete JSON and loadable with every template whose data had been seen at the sink before the signal, and after the restart data sent WITHOUT templates for every such (exporter,template) is published and equals the stand-alone decode. distinct = plan descriptor")
 	run.Assume("'within a few seconds' = 10 s (the one wall-clock verdict: the property is about wall-clock time); signals are sent only after the collector has bound its sockets (a signal before signal.Notify kills any program)")
 	run.Assume("'acknowledged' = a data message using that template was already seen at the sink before the signal was sent")
 	run.Finish()
